@@ -1,6 +1,6 @@
 (* Small executable helpers used only by the OCaml driver (conversions), never by theorems. *)
 From Coq Require Import ZArith List.
-From QF Require Import Base.Bytes.
+From QF Require Import Base.Res Base.Bytes.
 Import ListNotations.
 Open Scope Z_scope.
 
@@ -18,4 +18,6 @@ Definition z_of_dec (d : bytes) : Z :=
   end.
 Definition nat_of_z : Z -> nat := Z.to_nat.
 Definition z_of_nat : nat -> Z := Z.of_nat.
+(* forces the extraction of `res` in every area *)
+Definition res_is_ok (r : res Z) : bool := is_ok r.
 End Glue.
